@@ -64,14 +64,15 @@ def verify_all_dependencies_exist(phases, errors):
             for phase in phases.values()
             for inst in phase.statements}
 
-    # Check statements
+    # Check statements: dependencies are resolved within the statement's phase.
     for phase in phases.values():
+        phase_ids = {inst.id for inst in phase.statements}
         for inst in phase.statements:
             deps = set(inst.depends_on)
-            if not deps <= ids:
+            if not deps <= phase_ids:
                 errors.extend(
                     ['Dependency "{}" referenced by statement "{}" not found'
-                     .format(dep_name, inst) for dep_name in deps - ids])
+                     .format(dep_name, inst) for dep_name in deps - phase_ids])
 
     # Check phases.
     for phase_name, phase in phases.items():
